@@ -422,3 +422,245 @@ Section P.
     - intros H. exists s, []. split; [symmetry; apply app_nil_r|assumption].
   Qed.
 End P.
+
+(* ================================================================== parser *)
+(* Reading an expression does not depend on what follows its closing
+   parenthesis, nor on spare fuel: if the parser reads [t] and leaves [rest],
+   it reads [t ++ ")" ++ x'] the same way and leaves [rest ++ ")" ++ x'].
+   This is what makes the text substituted for a <name:filter> group parse,
+   inside "(?P<name>" .. ")", to the expression it parses to on its own. *)
+Section ParserExt.
+  Variable x' : list Z.
+  Notation x := (41 :: x').
+
+  Lemma p_escape_ext t a rest :
+    p_escape t = Some (a, rest) -> p_escape (t ++ x) = Some (a, rest ++ x).
+  Proof.
+    unfold p_escape. destruct t as [|c t]; [discriminate|]. cbn [app].
+    destruct (class_escape c).
+    - intros H. injection H as <- <-. reflexivity.
+    - destruct (c =? 90).
+      + intros H. injection H as <- <-. reflexivity.
+      + destruct (is_punct c); [|discriminate].
+        intros H. injection H as <- <-. reflexivity.
+  Qed.
+
+  Lemma p_single_ext t s rest :
+    p_single t = Some (s, rest) -> p_single (t ++ x) = Some (s, rest ++ x).
+  Proof.
+    unfold p_single. destruct t as [|c t]; [discriminate|]. cbn [app].
+    destruct (c =? 92).
+    - destruct t as [|d t]; [discriminate|]. cbn [app].
+      destruct (class_escape d).
+      + intros H. injection H as <- <-. reflexivity.
+      + destruct (is_punct d); [|discriminate].
+        intros H. injection H as <- <-. reflexivity.
+    - destruct (c =? 91); [discriminate|].
+      intros H. injection H as <- <-. reflexivity.
+  Qed.
+
+  Lemma p_items_ext : forall f t acc items rest,
+    p_items f t acc = Some (items, rest) ->
+    forall g, (f <= g)%nat -> p_items g (t ++ x) acc = Some (items, rest ++ x).
+  Proof.
+    induction f as [|f IH]; intros t acc items rest H g Hg; [discriminate|].
+    destruct g as [|g]; [lia|]. assert (Hg' : (f <= g)%nat) by lia.
+    cbn [p_items] in *.
+    destruct t as [|c t0]; [discriminate|]. cbn [app].
+    destruct (c =? 93).
+    { injection H as <- <-. reflexivity. }
+    change (c :: t0 ++ x) with ((c :: t0) ++ x).
+    destruct (p_single (c :: t0)) as [[s1 t1]|] eqn:E1; [|discriminate].
+    rewrite (p_single_ext _ _ _ E1).
+    destruct t1 as [|d t2]; [discriminate|]. cbn [app].
+    destruct (d =? 45).
+    - destruct t2 as [|e t3]; [discriminate|]. cbn [app].
+      destruct (e =? 93).
+      { injection H as <- <-. reflexivity. }
+      change (e :: t3 ++ x) with ((e :: t3) ++ x).
+      destruct s1 as [it|lo]; [discriminate|].
+      destruct (p_single (e :: t3)) as [[s2 t4]|] eqn:E2; [|discriminate].
+      rewrite (p_single_ext _ _ _ E2).
+      destruct s2 as [it|hi]; [discriminate|].
+      destruct (hi <? lo); [discriminate|].
+      apply IH; assumption.
+    - change (d :: t2 ++ x) with ((d :: t2) ++ x). apply IH; assumption.
+  Qed.
+
+  Lemma p_class_ext t neg items rest :
+    p_class t = Some (neg, items, rest) ->
+    p_class (t ++ x) = Some (neg, items, rest ++ x).
+  Proof.
+    unfold p_class. destruct t as [|c t]; [discriminate|]. cbn [app].
+    destruct (c =? 94).
+    - destruct t as [|d t]; [discriminate|]. cbn [app].
+      destruct (d =? 93); [discriminate|].
+      destruct (p_items (S (length (d :: t))) (d :: t) []) as [[it r]|] eqn:E;
+        [|discriminate].
+      intros H. injection H as <- <- <-.
+      change (d :: t ++ x) with ((d :: t) ++ x).
+      rewrite (p_items_ext _ _ _ _ _ E); [reflexivity|].
+      rewrite app_length. lia.
+    - destruct (c =? 93); [discriminate|].
+      destruct (p_items (S (length (c :: t))) (c :: t) []) as [[it r]|] eqn:E;
+        [|discriminate].
+      intros H. injection H as <- <- <-.
+      change (c :: t ++ x) with ((c :: t) ++ x).
+      rewrite (p_items_ext _ _ _ _ _ E); [reflexivity|].
+      rewrite app_length. lia.
+  Qed.
+
+  Lemma p_num_ext : forall f t acc k v k' c r,
+    p_num f t acc k = (v, k', c :: r) ->
+    p_num f (t ++ x) acc k = (v, k', (c :: r) ++ x).
+  Proof.
+    induction f as [|f IH]; intros t acc k v k' c r H; cbn [p_num] in *.
+    - injection H as <- <- ->. reflexivity.
+    - destruct t as [|d t]; [discriminate|]. cbn [app].
+      destruct (ascii_digit d).
+      + apply IH. assumption.
+      + injection H as <- <- <- <-. reflexivity.
+  Qed.
+
+  Lemma p_braces_ext t lo hi rest :
+    p_braces t = Some (lo, hi, rest) ->
+    p_braces (t ++ x) = Some (lo, hi, rest ++ x).
+  Proof.
+    unfold p_braces.
+    destruct (p_num 4 t 0 0) as [[lo' k1] t1] eqn:E1.
+    destruct (Nat.ltb 3 k1) eqn:L1; [discriminate|].
+    destruct t1 as [|c t2]; [discriminate|].
+    rewrite (p_num_ext _ _ _ _ _ _ _ _ E1), L1. cbn [app].
+    destruct (c =? 125).
+    { destruct (Nat.eqb k1 0); [discriminate|].
+      intros H. injection H as <- <- <-. reflexivity. }
+    destruct (c =? 44); [|discriminate].
+    destruct (p_num 4 t2 0 0) as [[hi' k2] t3] eqn:E2.
+    destruct (Nat.ltb 3 k2) eqn:L2; [discriminate|].
+    destruct t3 as [|d t4]; [discriminate|].
+    rewrite (p_num_ext _ _ _ _ _ _ _ _ E2), L2. cbn [app].
+    destruct (d =? 125); [|discriminate].
+    destruct (Nat.eqb k2 0).
+    - destruct (Nat.eqb k1 0); [discriminate|].
+      intros H. injection H as <- <- <-. reflexivity.
+    - destruct (Nat.ltb hi' lo'); [discriminate|].
+      intros H. injection H as <- <- <-. reflexivity.
+  Qed.
+
+  Lemma q_finish_ext a q t q' rest :
+    q_finish a q t = Some (q', rest) ->
+    q_finish a q (t ++ x) = Some (q', rest ++ x).
+  Proof.
+    unfold q_finish. destruct (s_can_empty a); [discriminate|].
+    destruct t as [|c t]; cbn [app].
+    - intros H. injection H as <- <-. reflexivity.
+    - destruct (is_quant_char c); [discriminate|].
+      intros H. injection H as <- <-. reflexivity.
+  Qed.
+
+  Lemma p_quant_ext a t q rest :
+    p_quant a t = Some (q, rest) -> p_quant a (t ++ x) = Some (q, rest ++ x).
+  Proof.
+    unfold p_quant. destruct t as [|c t]; cbn [app].
+    - intros H. injection H as <- <-. reflexivity.
+    - destruct (c =? 42); [apply q_finish_ext|].
+      destruct (c =? 43); [apply q_finish_ext|].
+      destruct (c =? 63); [apply q_finish_ext|].
+      destruct (c =? 123).
+      + destruct (p_braces t) as [[[lo hi] t2]|] eqn:E; [|discriminate].
+        rewrite (p_braces_ext _ _ _ _ E). apply q_finish_ext.
+      + intros H. injection H as <- <-. reflexivity.
+  Qed.
+
+  Lemma p_name_ext : forall t acc nm rest,
+    p_name t acc = Some (nm, rest) -> p_name (t ++ x) acc = Some (nm, rest ++ x).
+  Proof.
+    induction t as [|c t IH]; intros acc nm rest H; [discriminate|].
+    cbn [p_name app] in *. destruct (c =? 62).
+    - destruct (rev acc) as [|y l]; [discriminate|].
+      destruct (ident_start y); [|discriminate].
+      injection H as <- <-. reflexivity.
+    - destruct (ascii_word c); [|discriminate]. apply IH. assumption.
+  Qed.
+
+  Lemma p_ghead_ext t g rest :
+    p_ghead t = Some (g, rest) -> p_ghead (t ++ x) = Some (g, rest ++ x).
+  Proof.
+    unfold p_ghead. destruct t as [|c t1]; cbn [app].
+    - intros H. injection H as <- <-. reflexivity.
+    - destruct (c =? 63).
+      + destruct t1 as [|d t2]; [discriminate|]. cbn [app].
+        destruct (d =? 58).
+        { intros H. injection H as <- <-. reflexivity. }
+        destruct (d =? 80); [|discriminate].
+        destruct t2 as [|e t3]; [discriminate|]. cbn [app].
+        destruct (e =? 60); [|discriminate].
+        destruct (p_name t3 []) as [[nm t4]|] eqn:E; [|discriminate].
+        rewrite (p_name_ext _ _ _ _ E).
+        intros H. injection H as <- <-. reflexivity.
+      + intros H. injection H as <- <-. reflexivity.
+  Qed.
+
+  Lemma p_simple_ext c t a rest :
+    p_simple c t = Some (a, rest) -> p_simple c (t ++ x) = Some (a, rest ++ x).
+  Proof.
+    unfold p_simple. destruct (c =? 91).
+    - destruct (p_class t) as [[[neg items] t2]|] eqn:E; [|discriminate].
+      rewrite (p_class_ext _ _ _ _ E). intros H. injection H as <- <-. reflexivity.
+    - destruct (c =? 92); [apply p_escape_ext|].
+      destruct (c =? 46). { intros H. injection H as <- <-. reflexivity. }
+      destruct (c =? 36). { intros H. injection H as <- <-. reflexivity. }
+      destruct (is_meta c); [discriminate|].
+      intros H. injection H as <- <-. reflexivity.
+  Qed.
+
+  Lemma at_stop_ext t : at_stop t = at_stop (t ++ x) .
+  Proof. destruct t; reflexivity. Qed.
+
+  Theorem parser_ext : forall f,
+    (forall t a rest, p_alt f t = Some (a, rest) ->
+       forall g, (f <= g)%nat -> p_alt g (t ++ x) = Some (a, rest ++ x)) /\
+    (forall t a rest, p_seq f t = Some (a, rest) ->
+       forall g, (f <= g)%nat -> p_seq g (t ++ x) = Some (a, rest ++ x)) /\
+    (forall t a rest, p_atom f t = Some (a, rest) ->
+       forall g, (f <= g)%nat -> p_atom g (t ++ x) = Some (a, rest ++ x)).
+  Proof.
+    induction f as [|f (IHalt & IHseq & IHatom)].
+    { repeat split; intros; discriminate. }
+    repeat split; intros t a rest H g Hg; (destruct g as [|g]; [lia|]);
+      assert (Hg' : (f <= g)%nat) by lia.
+    - cbn [p_alt] in *.
+      destruct (p_seq f t) as [[a1 t1]|] eqn:E1; [|discriminate].
+      rewrite (IHseq _ _ _ E1 g Hg').
+      destruct t1 as [|c t2]; cbn [app].
+      + injection H as <- <-. reflexivity.
+      + destruct (c =? 124).
+        * destruct (p_alt f t2) as [[b t3]|] eqn:E2; [|discriminate].
+          rewrite (IHalt _ _ _ E2 g Hg'). injection H as <- <-. reflexivity.
+        * injection H as <- <-. reflexivity.
+    - cbn [p_seq] in *. rewrite <- at_stop_ext.
+      destruct (at_stop t).
+      + injection H as <- <-. reflexivity.
+      + destruct (p_atom f t) as [[a1 t1]|] eqn:E1; [|discriminate].
+        rewrite (IHatom _ _ _ E1 g Hg').
+        destruct (p_quant a1 t1) as [[q t2]|] eqn:E2; [|discriminate].
+        rewrite (p_quant_ext _ _ _ _ E2).
+        destruct (p_seq f t2) as [[b t3]|] eqn:E3; [|discriminate].
+        rewrite (IHseq _ _ _ E3 g Hg'). injection H as <- <-. reflexivity.
+    - cbn [p_atom] in *. destruct t as [|c t1]; [discriminate|]. cbn [app].
+      destruct (c =? 40).
+      + destruct (p_ghead t1) as [[g0 t2]|] eqn:E1; [|discriminate].
+        rewrite (p_ghead_ext _ _ _ E1).
+        destruct (p_alt f t2) as [[a1 t3]|] eqn:E2; [|discriminate].
+        rewrite (IHalt _ _ _ E2 g Hg').
+        destruct t3 as [|d t4]; [discriminate|]. cbn [app].
+        destruct (d =? 41); [|discriminate].
+        injection H as <- <-. reflexivity.
+      + apply p_simple_ext. assumption.
+  Qed.
+
+  Corollary p_alt_ext f t a rest g :
+    p_alt f t = Some (a, rest) -> (f <= g)%nat ->
+    p_alt g (t ++ x) = Some (a, rest ++ x).
+  Proof. intros H Hg. exact (proj1 (parser_ext f) t a rest H g Hg). Qed.
+End ParserExt.
